@@ -13,9 +13,18 @@ structure X32Cc (cc : CallConv) (gp : List Nat) : Prop where
   vsva : cc.hasFlag fVecByStackIfVA = true
   gplen : gp.length ≤ 3
   gpok : ∀ k, k < gp.length → gp.getD k 0 ≠ idBad
+  wos : (gp = [1, 2] ∨ gp = [1]) → (cc.id = 2 || cc.id = 4) = true
 
+/-- 64-bit integers: cdecl / stdcall, and (with fix C06-16) `__fastcall` / `__thiscall`, whose rule is the stack as a whole -/
 def x32Dom (gp : List Nat) (t : Nat) : Bool :=
-  (isInt t && !isAbstract t && (decide (tySize t ≤ 4) || gp.isEmpty)) || isF32F64 t || isVec t || isMask t
+  (isInt t && !isAbstract t && (decide (tySize t ≤ 4) || gp.isEmpty || decide (gp = [1, 2]) || decide (gp = [1])))
+  || isF32F64 t || isVec t || isMask t
+
+/-- the `whole_on_stack` flag of fix C06-16 as the argument loop computes it -/
+def wosOf (cc : CallConv) (t : Nat) : Bool := decide ((unpack .x86 t).length > 1) && (cc.id = 2 || cc.id = 4)
+
+theorem wosOf_small (cc : CallConv) {t : Nat} (h1 : t ≠ tInt64) (h2 : t ≠ tUInt64) : wosOf cc t = false := by
+  simp [wosOf, unpack, h1, h2]
 
 structure X32Inv (gp : List Nat) (va : Bool) (s : St) (older : List Nat) : Prop where
   gpP : s.gpPos = min (older.countP isSmallInt) gp.length
@@ -50,15 +59,16 @@ theorem x32_i64_facts : ∀ t ∈ List.range 42, isInt t = true → isAbstract t
 
 theorem x32_float_facts : ∀ t ∈ List.range 101, isF32F64 t = true →
     isInt t = false ∧ isFloat t = true ∧ isVec t = false ∧ isSmallInt t = false ∧ x32SlotAlign t = 1 ∧
-    ¬ (max (tySize t) 4 ≥ 16) ∧ t ≠ tInt64 ∧ t ≠ tUInt64 := by decide +kernel
+    ¬ (max (tySize t) 4 ≥ 16) ∧ t ≠ tInt64 ∧ t ≠ tUInt64 ∧ t ≠ tFloat80 := by decide +kernel
 
 theorem x32_vec_facts : ∀ t ∈ List.range 101, isVec t = true →
     isInt t = false ∧ isFloat t = false ∧ isF32F64 t = false ∧ isSmallInt t = false ∧ vecTypeIdToRegType t = xmmView t ∧
-    t ≠ tInt64 ∧ t ≠ tUInt64 ∧
+    t ≠ tInt64 ∧ t ≠ tUInt64 ∧ t ≠ tFloat80 ∧
     (if max (tySize t) 4 ≥ 16 then x32SlotAlign t = max (tySize t) 4 else x32SlotAlign t = 1) := by decide +kernel
 
 theorem x32_mask_facts : ∀ t ∈ List.range 101, isMask t = true →
-    isInt t = false ∧ isFloat t = false ∧ isVec t = false ∧ isF32F64 t = false ∧ isSmallInt t = false ∧ t ≠ tInt64 ∧ t ≠ tUInt64 := by
+    isInt t = false ∧ isFloat t = false ∧ isVec t = false ∧ isF32F64 t = false ∧ isSmallInt t = false ∧ t ≠ tInt64 ∧ t ≠ tUInt64 ∧
+    isMmx t = false := by
   decide +kernel
 
 theorem x32Dom_lt {gp : List Nat} {t : Nat} (h : x32Dom gp t = true) : t < 101 := by
@@ -75,8 +85,8 @@ theorem orderAt_nil (k : Nat) : orderAt [] k = idBad := by unfold orderAt; split
 
 theorem x32_step (cc : CallConv) (gp : List Nat) (hcc : X32Cc cc gp) (va : Bool) (s : St) (older : List Nat) (t : Nat)
     (hI : X32Inv gp va s older) (ht : x32Dom gp t = true) :
-    (packLoop (x86DefaultValue cc va 4) s (unpack .x86 t)).2 = x32Arg gp va older t ∧
-    X32Inv gp va (packLoop (x86DefaultValue cc va 4) s (unpack .x86 t)).1 (t :: older) := by
+    (packLoop (x86DefaultValue cc va 4 (wosOf cc t)) s (unpack .x86 t)).2 = x32Arg gp va older t ∧
+    X32Inv gp va (packLoop (x86DefaultValue cc va 4 (wosOf cc t)) s (unpack .x86 t)).1 (t :: older) := by
   obtain ⟨hgp, hvec, hoff⟩ := hI
   have hm101 : t ∈ List.range 101 := List.mem_range.2 (x32Dom_lt ht)
   simp only [x32Dom, Bool.or_eq_true, Bool.and_eq_true, Bool.not_eq_true', decide_eq_true_eq] at ht
@@ -88,8 +98,8 @@ theorem x32_step (cc : CallConv) (gp : List Nat) (hcc : X32Cc cc gp) (va : Bool)
       obtain ⟨hsm, hview, hnv, hnf, hal⟩ := x32_small_facts t hlt42 hi hab hs4
       have hne1 : t ≠ tInt64 := by intro h; subst h; simp [tySize, tInt64] at hs4
       have hne2 : t ≠ tUInt64 := by intro h; subst h; simp [tySize, tUInt64] at hs4
-      rw [unpack_x86_small hne1 hne2, packLoop_single]
-      simp only [x86DefaultValue, hi, if_true, hcc.gpo, hgp, orderAt_gp gp hcc.gplen]
+      rw [unpack_x86_small hne1 hne2, packLoop_single, wosOf_small cc hne1 hne2]
+      simp only [x86DefaultValue, hi, if_true, Bool.false_eq_true, if_false, hcc.gpo, hgp, orderAt_gp gp hcc.gplen]
       by_cases hk : older.countP isSmallInt < gp.length
       · have hne := hcc.gpok _ hk
         simp only [hk, if_true, hne, ne_eq, not_false_eq_true]
@@ -103,31 +113,38 @@ theorem x32_step (cc : CallConv) (gp : List Nat) (hcc : X32Cc cc gp) (va : Bool)
         · simp [List.countP_cons, hsm]; omega
         · simp [List.countP_cons, hnv]; exact hvec
         · simp [x32StackEnd, x32OnStack, hi, hs4, hge, hal, alignUp_one, x32SlotSize, hoff]
-    · -- 64-bit integer, only when the convention has no integer registers
-      have hgpe : gp = [] := by
-        rcases hsz with h | h
-        · exact absurd h hs4
-        · simpa using h
-      subst hgpe
+    · -- 64-bit integer: the convention has no integer registers, or passes it on the stack as a whole
       obtain ⟨h64, hsm, hnv, hal, hss, hi1, hi2, hm1, hm2⟩ := x32_i64_facts t hlt42 hi hab hs4
+      have hbad : ∀ k, (if wosOf cc t = true then idBad else orderAt gp k) = idBad := by
+        intro k
+        rcases hsz with ((h | h) | h) | h
+        · exact absurd h hs4
+        · have : gp = [] := by simpa using h
+          subst this; simp [orderAt_nil]
+        · have hw : wosOf cc t = true := by
+            simp only [wosOf, unpack_x86_i64 h64, hcc.wos (Or.inl h)]; simp
+          simp [hw]
+        · have hw : wosOf cc t = true := by
+            simp only [wosOf, unpack_x86_i64 h64, hcc.wos (Or.inr h)]; simp
+          simp [hw]
       rw [unpack_x86_i64 h64]
-      simp only [packLoop, x86DefaultValue, hi1, hi2, if_true, hcc.gpo, orderAt_nil, ne_eq, not_true_eq_false, if_false, hm1, hm2]
+      simp only [packLoop, x86DefaultValue, hi1, hi2, if_true, hcc.gpo, hbad, ne_eq, not_true_eq_false, if_false, hm1, hm2]
       refine ⟨by simp [x32Arg, hi, hs4, hal, alignUp_one, hoff], ⟨?_, ?_, ?_⟩⟩
-      · simp [List.countP_cons, hsm]; simpa using hgp
+      · simp [List.countP_cons, hsm]; exact hgp
       · simp [List.countP_cons, hnv]; exact hvec
       · simp [x32StackEnd, x32OnStack, hi, hs4, hal, alignUp_one, hss, hoff]
   · -- float / double: always on the stack
-    obtain ⟨hni, hfl, hnv, hsm, hal, hns, hne1, hne2⟩ := x32_float_facts t hm101 hf
-    rw [unpack_x86_small hne1 hne2, packLoop_single]
-    simp only [x86DefaultValue, hni, hfl, Bool.true_or, if_true, if_false, Bool.false_eq_true, hcc.nofv, Bool.not_false, hns]
+    obtain ⟨hni, hfl, hnv, hsm, hal, hns, hne1, hne2, hn80⟩ := x32_float_facts t hm101 hf
+    rw [unpack_x86_small hne1 hne2, packLoop_single, wosOf_small cc hne1 hne2]
+    simp only [x86DefaultValue, hni, hfl, Bool.true_or, if_true, if_false, Bool.false_eq_true, hcc.nofv, Bool.not_false, hn80, hns]
     refine ⟨by simp [x32Arg, hni, hf, hal, alignUp_one, hoff], ⟨?_, ?_, ?_⟩⟩
     · simp [List.countP_cons, hsm]; exact hgp
     · simp [List.countP_cons, hnv]; exact hvec
     · simp [x32StackEnd, x32OnStack, hni, hf, hal, alignUp_one, x32SlotSize, hoff]
   · -- vectors
-    obtain ⟨hni, hnfl, hnf, hsm, hview, hne1, hne2, halc⟩ := x32_vec_facts t hm101 hv
-    rw [unpack_x86_small hne1 hne2, packLoop_single]
-    simp only [x86DefaultValue, hni, hnfl, hv, Bool.false_or, if_true, if_false, Bool.false_eq_true, hcc.vsva, Bool.and_true, hcc.veco]
+    obtain ⟨hni, hnfl, hnf, hsm, hview, hne1, hne2, hn80, halc⟩ := x32_vec_facts t hm101 hv
+    rw [unpack_x86_small hne1 hne2, packLoop_single, wosOf_small cc hne1 hne2]
+    simp only [x86DefaultValue, hni, hnfl, hv, Bool.false_or, Bool.true_or, if_true, if_false, Bool.false_eq_true, hcc.vsva, Bool.and_true, hcc.veco, hn80]
     cases va with
     | true =>
       simp only [if_true, ne_eq, not_true_eq_false, if_false]
@@ -162,9 +179,9 @@ theorem x32_step (cc : CallConv) (gp : List Nat) (hcc : X32Cc cc gp) (va : Bool)
         · simp [List.countP_cons, hv]; omega
         · simp only [hoffeq]; simp [x32StackEnd, x32OnStack, hni, hnf, hv, hge, x32SlotSize]
   · -- opmask
-    obtain ⟨hni, hnfl, hnv, hnf, hsm, hne1, hne2⟩ := x32_mask_facts t hm101 hm
-    rw [unpack_x86_small hne1 hne2, packLoop_single]
-    simp only [x86DefaultValue, hni, hnfl, hnv, Bool.or_false, if_false, Bool.false_eq_true]
+    obtain ⟨hni, hnfl, hnv, hnf, hsm, hne1, hne2, hnmx⟩ := x32_mask_facts t hm101 hm
+    rw [unpack_x86_small hne1 hne2, packLoop_single, wosOf_small cc hne1 hne2]
+    simp only [x86DefaultValue, hni, hnfl, hnv, hnmx, Bool.or_false, Bool.false_and, if_false, Bool.false_eq_true]
     refine ⟨by simp [x32Arg, hni, hnf, hnv], ⟨?_, ?_, ?_⟩⟩
     · simp [List.countP_cons, hsm]; exact hgp
     · simp [List.countP_cons, hnv]; exact hvec
@@ -180,10 +197,11 @@ theorem x32_loop (cc : CallConv) (gp : List Nat) (pops : Bool) (hcc : X32Cc cc g
   | cons t ts ih =>
     intro i s older hI hd
     obtain ⟨hv, hI'⟩ := x32_step cc gp hcc va s older t hI (hd t (by simp))
-    obtain ⟨ha, hI''⟩ := ih (i + 1) (packLoop (x86DefaultValue cc va 4) s (unpack .x86 t)).1 (t :: older) hI'
+    obtain ⟨ha, hI''⟩ := ih (i + 1) (packLoop (x86DefaultValue cc va 4 (wosOf cc t)) s (unpack .x86 t)).1 (t :: older) hI'
       (fun u hu => hd u (by simp [hu]))
     have hstrat : (cc.strategy = 1 || cc.strategy = 2) = false := by simp [hcc.strat]
     simp only [x86ArgLoop, hstrat, hcc.arch, Bool.false_eq_true, if_false]
+    simp only [wosOf] at ha hv hI''
     refine ⟨?_, ?_⟩
     · simp only [argsFrom]; rw [ha, hv]
     · simpa [List.reverse_cons, List.append_assoc] using hI''
@@ -193,6 +211,7 @@ theorem x32_loop (cc : CallConv) (gp : List Nat) (pops : Bool) (hcc : X32Cc cc g
 def x32CcB (cc : CallConv) (gp : List Nat) (pops : Bool) : Bool :=
   cc.arch == .x86 && cc.strategy == 0 && cc.gpOrder == gp && cc.vecOrder == [0, 1, 2] && !cc.hasFlag fFloatsByVec &&
   cc.hasFlag fVecByStackIfVA && decide (gp.length ≤ 3) && gp.all (· != idBad) &&
+  (!(gp == [1, 2] || gp == [1]) || (cc.id == 2 || cc.id == 4)) &&
   (cc.hasFlag fCalleePops == pops) && cc.redZone == 0 && cc.spillZone == 0 && cc.naturalAlign == 4 &&
   cc.presGp == maskOf [3, 4, 5, 6, 7] && cc.presVec == 0
 
